@@ -3,6 +3,8 @@
 #include "gencpp.h"
 #include "stab.h"
 #include "store.h"
+#include "comsg.h"
+#include "comsgdb.h"
 /*
  *  2006/Dec/20
  *
@@ -81,6 +83,7 @@ void genCpp(AbSyn ab, String dir, String file) {
   */
 
   FILE *as_file, *cc_file;
+  Bool failed;
 
   if (!ab) {
     fprintf(stderr, "C++ generation can not proceed.\nAbstract Syntax tree not available.\n");
@@ -96,8 +99,14 @@ void genCpp(AbSyn ab, String dir, String file) {
   ExportGen(ab,cc_file,as_file);
   CodeGen(ab,cc_file,as_file); 
 
-  fclose(as_file);
-  fclose(cc_file);
+  /* A write error remembered by a stream or reported by the close means the
+     file is incomplete: fatal, as for every other output of the compiler. */
+  failed = ferror(as_file) != 0;
+  if (fclose(as_file) != 0) failed = true;
+  if (failed) comsgFatal(NULL, ALDOR_F_CantWrite, strPrintf("%s/%s_as.as",dir,file));
+  failed = ferror(cc_file) != 0;
+  if (fclose(cc_file) != 0) failed = true;
+  if (failed) comsgFatal(NULL, ALDOR_F_CantWrite, strPrintf("%s/%s_cc.h",dir,file));
 }
 
 int cppOption(String opt) {
@@ -245,9 +254,11 @@ void CreateOutputFiles(String dir, String file, FILE **cc, FILE **as) {
 
   s = strPrintf("%s/%s_cc.h",dir,file);
   *cc = fopen(s,"w+");
+  if (!*cc) comsgFatal(NULL, ALDOR_F_CantOpen, s);
   strFree(s);
   s = strPrintf("%s/%s_as.as",dir,file);
   *as = fopen(s,"w+");
+  if (!*as) comsgFatal(NULL, ALDOR_F_CantOpen, s);
   strFree(s);
 
   /* Output the headers (#include) */
